@@ -49,8 +49,8 @@ CHECKS = {
             "Depth bound; replies come from stub runs ('ack: ...'); a checkpoint with to_seq <= the cut that lands during a compile is not judged (eligibility is by to_seq on the stream at selection time, ADR-0011); stale caches are C04's subject.",
             "DESIGN.md §3 C08"),
     "C09": ("H-histories", "exploration",
-            "bounded exhaustive enumeration of thread histories x compaction commands x parameter domains on the real store against a reference planner evaluated on log replay",
-            "Every history of <=4 (quick) / <=5 (thorough) ops over {message, answered run, side effects, manual checkpoints at last/first message and by stride, auto, schedule variants, inflight job} plus 25 histories with overlapping jobs (the spawn half and the run half of an auto job as separate ops, two or three jobs for one cut point in every order); in the reached state cut points for 7 strides x 6 limits must equal the reference planner (warm store and a copy without caches); auto(stride,max_new) on copies must create exactly the planned checkpoints inside one job_spawned/job_ended bracket with readable summaries of matching coverage, identical text on a byte-identical twin store (modulo ids minted by the run), and a repeat with nothing to do must be a zero-byte noop; the summaries that auto jobs render for one cut point must be equal modulo the producing job's id; schedule decisions (noop / dry_run / skipped_inflight / scheduled / completed) must match the reference.",
+            "bounded exhaustive enumeration of thread histories x compaction commands x parameter domains on the real store against a reference planner evaluated on log replay; plus stateless schedule exploration at system-call granularity of an auto compaction racing one append",
+            "Every history of <=4 (quick) / <=5 (thorough) ops over {message, answered run, side effects, manual checkpoints at last/first message and by stride, auto, schedule variants, inflight job} plus 25 histories with overlapping jobs (the spawn half and the run half of an auto job as separate ops, two or three jobs for one cut point in every order); in the reached state cut points for 7 strides x 6 limits must equal the reference planner (warm store and a copy without caches); auto(stride,max_new) on copies must create exactly the planned checkpoints inside one job_spawned/job_ended bracket with readable summaries of matching coverage, identical text on a byte-identical twin store (modulo ids minted by the run), and a repeat with nothing to do must be a zero-byte noop; the summaries that auto jobs render for one cut point must be equal modulo the producing job's id; schedule decisions (noop / dry_run / skipped_inflight / scheduled / completed) must match the reference. System-call part: an auto compaction racing one append (thorough: 4 writers x 3 pre-states), every file-system call a scheduling point, <=1 preemption: the plan and the created checkpoints must be those of one sequential order; validated replay and cache transparency afterwards.",
             "Depth and parameter bounds; the concurrent schedule/auto sub-check of the design is covered only by C01's pair exploration (AutoCompaction/ScheduleCompaction pairs: numbering, not bracket integrity); summary text compared modulo 64-hex ids minted by the run.",
             "DESIGN.md §3 C09"),
     "C10": ("H-histories", "exploration",
